@@ -159,6 +159,7 @@ def run(ctx, rep):
     rep.rule('C15.6', 'inverse key functions use the geometry fields of the forward index functions')
     ev = Evaluator(f)
     e = sym('e', 64)
+    tally = {'decided': 0, 'undecided': 0}
 
     def check(rule, name, fn, args, expect, key):
         try:
@@ -167,7 +168,9 @@ def run(ctx, rep):
         except Undecided as x:
             rep.note_undecided(rule, name, str(x))
             rep.ob(rule, name + ' (not decided)', True, 'outside the bit domain: %s' % x)
+            tally['undecided'] += 1
             return None
+        tally['decided'] += 1
         ok, detail = expect(r)
         rep.ob(rule, name, ok, detail)
         if not ok:
@@ -287,6 +290,8 @@ def run(ctx, rep):
             check('C15.3', 'RefBlock set width %d index %d' % (w, index), 'meta::refcount::RefBlock::__set',
                   [rb2, C(64, index), val], exps, 'C15.3:__set:order%d' % order)
     rep.floor('refcount get/set contexts', nget, 100)
+    # the get/set bit tables must actually be decided: an evaluation that leaves the bit domain proves nothing
+    rep.floor('bit-table evaluations decided (of %d)' % (tally['decided'] + tally['undecided']), tally['decided'], 200)
     # range check dominates the store in __set
     sb = f.body('meta::refcount::RefBlock::__set')
     dp = Deps(P, sb)
